@@ -4,14 +4,9 @@ use std::fs::File;
 use std::io::BufRead;
 use std::io::BufReader;
 use std::ops::Add;
-use std::ops::Index;
 use std::path::Path;
-use std::sync::LazyLock;
-use regex::Captures;
 use regex::Error;
 use regex::Regex;
-
-use crate::util::error_exit;
 
 #[derive(Clone, Debug)]
 pub struct DockerignoreFilter {
@@ -119,11 +114,11 @@ fn convert_dockerignore_pattern(
     pattern: &str,
     file_path: &Path,
 ) -> Result<DockerignoreFilter, String> {
-    let mut pattern = String::from(pattern);
+    let mut pattern = String::from(pattern.trim());
 
     let mut negate = false;
     if pattern.starts_with("!") {
-        pattern = pattern.replace("!", "");
+        pattern = String::from(pattern[1..].trim_start());
         negate = true;
     }
 
@@ -135,26 +130,35 @@ fn convert_dockerignore_pattern(
     }
 }
 
-static DOCKER_CONVERT_REPLACE_REGEX: LazyLock<Regex> = LazyLock::new(|| {
-    Regex::new("(\\*\\*|\\?|\\.|\\*)").unwrap()
-});
-
 fn convert_dockerignore_glob(glob: &str, file_path: &Path) -> Result<Regex, Error> {
-    let mut pattern = DOCKER_CONVERT_REPLACE_REGEX
-        .replace_all(glob, |c: &Captures| {
-            match c.index(0) {
-                "**" => ".*",
-                "." => "\\.",
-                "*" => "[^/]*",
-                "?" => "[^/]",
-                _ => error_exit(".dockerignore", "Error parsing pattern"),
-            }
-            .to_string()
-        })
-        .to_string();
+    // a pattern is relative to the directory of the .dockerignore file, with or without a leading
+    // slash, and names a directory with or without a trailing slash
+    let glob = glob
+        .trim_start_matches(|c| c == '/' || c == '\\')
+        .trim_end_matches('/');
+    let chars: Vec<char> = glob.chars().collect();
 
-    while pattern.starts_with("/") || pattern.starts_with("\\") {
-        pattern.remove(0);
+    let mut pattern = String::new();
+    let mut i = 0;
+    while i < chars.len() {
+        match chars[i] {
+            '*' if i + 1 < chars.len() && chars[i + 1] == '*' => {
+                // `**` stands for any number of directories, including none
+                i += 1;
+                if i + 1 < chars.len() && chars[i + 1] == '/' {
+                    i += 1;
+                }
+                if i + 1 == chars.len() {
+                    pattern.push_str(".*");
+                } else {
+                    pattern.push_str("(.*/)?");
+                }
+            }
+            '*' => pattern.push_str("[^/]*"),
+            '?' => pattern.push_str("[^/]"),
+            c => pattern.push_str(&regex::escape(&c.to_string())),
+        }
+        i += 1;
     }
 
     #[cfg(windows)]
@@ -167,7 +171,13 @@ fn convert_dockerignore_glob(glob: &str, file_path: &Path) -> Result<Regex, Erro
     #[cfg(not(windows))]
     let path = file_path.to_string_lossy().to_string();
 
-    pattern = path.replace("\\", "\\\\").add("/([^/]+/)*").add(&pattern);
+    // the whole pattern has to match the path of the entry, or of one of its parent directories,
+    // relative to the directory of the .dockerignore file
+    pattern = String::from("^")
+        .add(&regex::escape(&path))
+        .add("/")
+        .add(&pattern)
+        .add("(/.*)?$");
 
     Regex::new(&pattern)
 }
